@@ -1039,6 +1039,9 @@ class QuantityMeta(ClassWithDefinitionMeta):
         cls = super().__new__(mcs, name, bases, clsdict,
                               define_as=define_as)
         assert isinstance(cls, QuantityMeta)
+        # each class needs its own map of units (otherwise the reference unit
+        # would be registered in the map of its base class)
+        cls._unit_map = {}
         if ref_unit_symbol:
             cls._ref_unit = cls._make_ref_unit(ref_unit_symbol, ref_unit_name,
                                                ref_unit_def)
